@@ -265,7 +265,10 @@ def _handler() -> list[str]:
         raise TranslatorError("_write_range_aware_raise: loop target changed")
     lo_v, hi_v, cls_v = names
     want_if = f"f'if {{{lo_v}}} <= response.status_code < {{{hi_v}}}:'"
-    want_raise = f"f'raise {{{cls_v}}}(response=response, message=\"{{message}}\", status_code=response.status_code)'"
+    want_raise = "f'raise {error_ref}(response=response, message=\"{message}\", status_code=response.status_code)'"
+    refs = [n for n in ast.walk(body[0]) if isinstance(n, ast.Call) and isinstance(n.func, ast.Attribute) and n.func.attr == "_exception_ref"]
+    if len(refs) != 1 or ast.unparse(refs[0].args[1]) != "'exceptions'" or ast.unparse(refs[0].args[2]) != cls_v:
+        raise TranslatorError("_write_range_aware_raise: the raised class is not resolved with _exception_ref(context, 'exceptions', <class>)")
     if want_if not in loop_src or want_raise not in loop_src:
         raise TranslatorError(f"_write_range_aware_raise: rendered lines changed: {loop_src}")
     finals = [ast.unparse(n) for n in ast.walk(body[2]) if isinstance(n, ast.JoinedStr)]
@@ -282,8 +285,18 @@ def _handler() -> list[str]:
     # ---- declared numeric non-2xx: alias for error codes, inline base class otherwise
     fstr = [n for n in ast.walk(gen) if isinstance(n, ast.JoinedStr) and n.values and isinstance(n.values[0], ast.Constant)
             and n.values[0].value == "raise "]
-    if len(fstr) != 1 or ast.unparse(fstr[0]) != "f'raise {error_class_name}(response=response)'":
+    if len(fstr) != 1 or ast.unparse(fstr[0]) != "f'raise {error_ref}(response=response)'":
         raise TranslatorError("generate_response_handling: alias raise line changed")
+    arefs = [n for n in ast.walk(gen) if isinstance(n, ast.Call) and isinstance(n.func, ast.Attribute) and n.func.attr == "_exception_ref"]
+    if len(arefs) != 1 or ast.unparse(arefs[0].args[1]) != "'exception_aliases'" or ast.unparse(arefs[0].args[2]) != "error_class_name":
+        raise TranslatorError("generate_response_handling: the alias is not resolved with _exception_ref(context, 'exception_aliases', …)")
+    # _exception_ref: a name that a model class of the spec also has is referenced through its module
+    er = _find_func(cls, "_exception_ref")
+    quals = [ast.unparse(n) for n in ast.walk(er) if isinstance(n, ast.JoinedStr)]
+    tests = [n for n in ast.walk(er) if isinstance(n, ast.If) and isinstance(n.test, ast.Compare) and isinstance(n.test.ops[0], ast.In)
+             and ast.unparse(n.test.left) == "class_name"]
+    if "f'{module}.{class_name}'" not in quals or len(tests) != 1 or not any(isinstance(x, ast.Return) for x in tests[0].body):
+        raise TranslatorError(f"_exception_ref changed shape: {quals}")
     guards = [n for n in ast.walk(gen) if isinstance(n, ast.If) and isinstance(n.test, ast.Call)
               and isinstance(n.test.func, ast.Name) and n.test.func.id == "is_error_code"]
     if len(guards) != 1 or not any(isinstance(x, ast.JoinedStr) for b in guards[0].body for x in ast.walk(b)):
